@@ -9,6 +9,8 @@ def jobs(tier):
              timeout=900, require_tags={'end': 1, 'accept': 1, 'all-missing': 1}),
         dict(name='n3e2-allele40', harness=H, entry='main_c20', defines=dict(NN=3, NE=2, NE_MIN=1, ONE_TREE=1, TP_HI=0, SP_HI=1, HIGH_ALLELE=40),
              timeout=900, require_tags={'end': 1, 'accept': 1}),
+        dict(name='kernel-allele-sets', harness='k_trees.c', entry='main_kernel', defines=dict(KERNEL=7), timeout=300,
+             require_tags={'end': 64, 'high': 32}),
     ]
     if tier == 'quick':
         return q
@@ -23,7 +25,7 @@ def jobs(tier):
 BOUNDS = {
     'quick': 'every one-tree sequence with 4 nodes and 1-3 edges under 2 time profiles x 3 sample profiles (2 or 3 samples, '
              'incl. an internal sample; polytomies, unary chains, multiple roots, isolated samples), genotypes per sample '
-             'enumerated over {-1,0,1,2}, ancestral state free or fixed to 0,1,2; 3-node trees also with allele 40 in place of 2 (bit-set arithmetic above bit 31)',
+             'enumerated over {-1,0,1,2}, ancestral state free or fixed to 0,1,2; 3-node trees also with allele 40 in place of 2 (bit-set arithmetic above bit 31); allele-set kernel: get_smallest_set_bit / set_bit / bit_is_set for every non-empty 64-bit set and every allele index',
     'thorough': 'plus 5 nodes with 3-4 edges (time-boxed)',
 }
 OUTSIDE = ['alleles other than 0,1,2,40 (63 in thorough) and the rejected values 64 and above (see C09 harness for the bounds checks)',
